@@ -623,6 +623,8 @@ struct Ctx {
     trail: Vec<String>,
     /// derived (line, observation) pairs to emit after the current op
     pending_lines: Vec<(String, String)>,
+    /// connection to a real `Server` serving the current registry (started by the first `wire` op of a sequence)
+    wire: Option<std::net::TcpStream>,
 }
 
 fn is_write_ok(v: &Value) -> bool {
@@ -1019,6 +1021,7 @@ fn exec_seq(out: &mut Out, ctx: &mut Ctx, line: &str) -> Option<(String, bool)> 
             ctx.trail.clear();
             ctx.trail.push(line.to_string());
             ctx.router = None;
+            ctx.wire = None;
             None
         }
         "router" => {
@@ -1135,6 +1138,149 @@ fn exec_seq(out: &mut Out, ctx: &mut Ctx, line: &str) -> Option<(String, bool)> 
                 }
             }
             Some((format!("{} {}", idx, render(&json!(toks))), !toks.is_empty()))
+        }
+        "wire" => {
+            // wire i <version> <notify> <query format> <path P | !> <body format> <body hex|-> <decoder outcome>
+            // One frame sent over TCP to a real blocking `Server` whose router mounts the current registry (same
+            // prefixes), followed by a barrier request; the server's own validation (version, query format, UTF-8,
+            // notify) belongs to other properties – here only C14's clauses are checked on whatever path the request
+            // takes: a request that is not dispatched changes nothing; a dispatched one has exactly the effect (tree,
+            // callables invoked once with the body) and – when answered – the answer of the direct `dispatch`.
+            ctx.trail.push(line.to_string());
+            let trail = ctx.trail.clone();
+            let (ver, notify, qfmt): (u8, u8, u16) = (w[2].parse().unwrap(), w[3].parse().unwrap(), w[4].parse().unwrap());
+            let path: Option<String> = if w[5] == "!" { None } else { Some(unpword(w[5])) };
+            let fmt: u16 = w[6].parse().unwrap();
+            let bytes = unhex(w[7]).expect("body hex");
+            if ctx.wire.is_none() {
+                let mut r = Router::new();
+                for p in &ctx.prefixes {
+                    r = r.with_registry(p, Arc::clone(&ctx.sys.reg));
+                }
+                let server = repe::Server::new(r);
+                let listener = server.listen("127.0.0.1:0").expect("listen");
+                let addr = listener.local_addr().expect("addr");
+                std::thread::spawn(move || {
+                    let _ = server.serve(listener);
+                });
+                let c = std::net::TcpStream::connect(addr).expect("connect");
+                c.set_read_timeout(Some(std::time::Duration::from_secs(10))).unwrap();
+                c.set_nodelay(true).unwrap();
+                ctx.wire = Some(c);
+            }
+            let before = ctx.sys.snapshot();
+            let t_wire = std::time::Instant::now();
+            let id: u64 = 1_000_000 + idx.parse::<u64>().unwrap_or(0) * 2;
+            let q: Vec<u8> = path.as_ref().map(|p| p.as_bytes().to_vec()).unwrap_or(vec![0x2f, 0xff, 0xfe]);
+            let mut f = repe_verif_harness::frames::RawFrame::request(id, notify == 1, qfmt, &q, fmt, &bytes);
+            f.h.version = ver;
+            f.h.notify = notify;
+            let barrier = repe_verif_harness::frames::RawFrame::request(id + 1, false, 1, b"/__barrier__/x", 2, b"");
+            let mut answer: Option<Result<Value, u32>> = None;
+            let mut barrier_seen = false;
+            {
+                use std::io::{Read as _, Write as _};
+                let c = ctx.wire.as_mut().unwrap();
+                let mut out_bytes = f.to_vec();
+                out_bytes.extend(barrier.to_vec());
+                let _ = c.write_all(&out_bytes);
+                let mut buf: Vec<u8> = Vec::new();
+                let mut chunk = [0u8; 65536];
+                while !barrier_seen {
+                    match c.read(&mut chunk) {
+                        Ok(0) | Err(_) => break,
+                        Ok(n) => buf.extend_from_slice(&chunk[..n]),
+                    }
+                    while let Some((fr, used)) = repe_verif_harness::frames::RawFrame::parse_prefix(&buf) {
+                        if fr.h.id == id {
+                            answer = Some(if fr.h.ec == 0 && fr.h.body_format == 2 { parse_json_deep(&fr.body).ok_or(u32::MAX) } else { Err(fr.h.ec) });
+                        }
+                        if fr.h.id == id + 1 {
+                            barrier_seen = true;
+                        }
+                        buf.drain(..used);
+                    }
+                }
+            }
+            out.add("wire.total_ms", t_wire.elapsed().as_millis() as u64);
+            if t_wire.elapsed().as_millis() > 1000 {
+                out.count(&format!("wire.slow.v{}n{}q{}", ver, notify, qfmt));
+            }
+            if !barrier_seen {
+                // the connection died or stalled: whatever the reason (another property's), this sequence cannot go on
+                ctx.wire = None;
+                out.count("wire.no_barrier");
+            }
+            // which requests reach the registry is fixed by the protocol: version 1, JSON-pointer query that is UTF-8,
+            // a mounted prefix; everything else is refused by the server before any handler runs
+            let ptr = match (&path, ver == 1 && qfmt == 1) {
+                (Some(p), true) => o_choose(&ctx.prefixes, p).and_then(|pre| o_strip(std::slice::from_ref(&pre), p)),
+                _ => None,
+            };
+            let body = o_body(fmt, &bytes);
+            let mut twin = Sys::from_snapshot(&before);
+            let want: Option<RRes> = match (&ptr, &body) {
+                (Some(ptr), Ok(b)) => Some(twin.apply(&OpR::Disp(ptr.clone(), b.clone()))),
+                _ => None,
+            };
+            let same_state = twin.root() == ctx.sys.root() && *twin.log.lock().unwrap() == *ctx.sys.log.lock().unwrap();
+            if barrier_seen && !same_state {
+                out.oracle_fail(if want.is_some() { "registry.wire.effect_differs" } else { "registry.wire.refused_mutated" }, &format!("after the request the registry holds {} / {} calls, the direct dispatch (or no dispatch at all) leaves {} / {} calls", render(&ctx.sys.root()), ctx.sys.log_len(), render(&twin.root()), twin.log_len()), &trail);
+            }
+            let dispatched_answer = match (&want, &answer, notify == 1) {
+                (Some(w), Some(a), false) => {
+                    let w2 = w.clone().map_err(|e| if e.0 == "Panic" { u32::MAX } else { e.1 });
+                    if &w2 != a && w2 != Err(u32::MAX) {
+                        out.oracle_fail("registry.wire.answer_differs", &format!("the server answered {:?}, the direct dispatch gives {:?}", a, w2), &trail);
+                    }
+                    true
+                }
+                _ => false,
+            };
+            let nested: Vec<_> = ctx.sys.nested.lock().unwrap().drain(..).collect();
+            for (j, (ptr, v, nr)) in nested.iter().enumerate() {
+                ctx.pending_lines.push((format!("nregv {}.{} {} {}", idx, j + 1, pword(ptr), render(v)), format!("{}.{} {}", idx, j + 1, obs(&ctx.sys, nr))));
+            }
+            out.count(&format!("wire.{}", if want.is_some() { if notify == 1 { "dispatched_notify" } else { "dispatched" } } else { "refused" }));
+            let panicked = matches!(&want, Some(Err((n, _))) if n == "Panic");
+            let s = if panicked {
+                // the callable panicked inside the server: what the peer then sees is not C14's business
+                format!("{} unspecified c{}", idx, ctx.sys.log_len())
+            } else if dispatched_answer {
+                match answer.as_ref().unwrap() {
+                    Ok(v) => format!("{} ok {} c{}", idx, render(v), ctx.sys.log_len()),
+                    Err(c) if *c == u32::MAX || (1_000_001..=1_000_003).contains(c) => format!("{} unspecified c{}", idx, ctx.sys.log_len()),
+                    Err(c) => format!("{} err {} c{}", idx, c, ctx.sys.log_len()),
+                }
+            } else if want.is_some() {
+                format!("{} dispatched c{}", idx, ctx.sys.log_len())
+            } else {
+                format!("{} refused c{}", idx, ctx.sys.log_len())
+            };
+            Some((s, want.is_some()))
+        }
+        "jpd" => {
+            // jpd i D <suffix P>: eval_json_pointer on a document that really is D levels deep (built here, not parsed)
+            let d: usize = w[2].parse().expect("depth");
+            let suffix = unpword(w[3]);
+            let mut v = json!({"target": 1, "k": [0, 1]});
+            for i in (0..d).rev() {
+                let mut m = Map::new();
+                m.insert(format!("d{i}"), v);
+                v = Value::Object(m);
+            }
+            let p: String = (0..d).map(|i| format!("/d{i}")).collect::<String>() + &suffix;
+            let r = repe::eval_json_pointer(&v, &p);
+            if let Some(toks) = o_parse(&p) {
+                if p.starts_with('/') && p != "/" && o_resolve(&v, &toks).ok() != r {
+                    out.oracle_fail("registry.json_pointer.evaluate", &format!("evaluate(<chain of depth {}>, …{}) = {:?}, the document holds {:?}", d, pword(&suffix), r.map(render), o_resolve(&v, &toks).ok().map(render)), &[line.to_string()]);
+                }
+            }
+            let toks = repe::parse_json_pointer(&p);
+            let obs = format!("{} {} {}", idx, match r { Some(x) => format!("some {}", render(x)), None => "none".into() }, toks.len());
+            let hit = r.is_some();
+            // drop the deep value iteratively enough: 4096 levels are fine for the recursive drop
+            Some((obs, hit))
         }
         "jpe" => {
             let v = unjword(w[2]);
@@ -1288,6 +1434,7 @@ fn enum_go(out: &mut Out, e: &mut EnumCtx, depth: usize, snap: &Snapshot, trail:
         let sys = Sys::from_snapshot(snap);
         return fnv_line(h, &sys.dump(false));
     }
+    heartbeat();
     for op in &e.dom.ops {
         let mut sys = Sys::from_snapshot(snap);
         trail.push(op_line(op));
@@ -1445,6 +1592,7 @@ fn run_conc_many(sc: &Scenario, iters: u64) -> BTreeMap<String, (Outcome, u64)> 
             });
         }
         for it in 1..=iters as usize {
+            heartbeat();
             let mut sys = Sys::new();
             for op in &sc.setup {
                 let _ = sys.apply(op);
@@ -1681,6 +1829,7 @@ fn exec_watch(out: &mut Out, line: &str) {
     let states: Vec<Vec<String>> = wt.watchers.iter().map(|op| watch_states(&wt, op)).collect();
     let mut seen: BTreeMap<String, Vec<Vec<String>>> = BTreeMap::new();
     for _ in 0..iters {
+        heartbeat();
         let o = run_watch(&wt);
         let key = o.iter().map(|v| format!("V {}", v.join(" "))).collect::<Vec<_>>().join(" ");
         if seen.len() < 12 || seen.contains_key(&key) {
@@ -1869,6 +2018,37 @@ fn gen_sequence(r: &mut Rng, k: &mut u64, ops: &mut Vec<String>, max_len: u64, t
     let mut g = SeqGen { pool: (0..r.range(2, 4)).map(|_| gen_pointer(r, 3)).collect() };
     let n = r.range(5, max_len);
     let mut tag = 0u64;
+    // a few sequences send their mount requests over TCP to a real Server (one listener thread each)
+    let wired = r.chance(1, if thorough { 40 } else { 25 });
+    if r.chance(1, 5) {
+        // a FULL registry: 12–20 values and 12–16 callables (all kinds) registered in shuffled, non-sorted order, so that
+        // the rare events below (replacing a callable whose Drop panics, root replacement, scalar ancestors overwritten,
+        // runs of identical calls) happen with many entries in both maps
+        let mut prelude: Vec<String> = Vec::new();
+        for _ in 0..r.range(12, 20) {
+            let p = if r.chance(1, 2) { gen_pointer(r, 2) } else { g.pointer(r) };
+            g.pool.push(p.clone());
+            prelude.push(OpR::RegV(p, gen_value(r, 1)).words());
+        }
+        for _ in 0..r.range(12, 16) {
+            tag += 1;
+            let fail = match r.below(8) {
+                0 => Some(*r.pick(&[0u32, 1, 2, 3, 4, 5, 6, 7, 8, 9, 4096])),
+                1 => Some(*r.pick(&[1_000_001u32, 1_000_002, 1_000_003])),
+                2 => Some(3_000_000),
+                3 | 4 => Some(4_000_000),
+                _ => None,
+            };
+            tags.push((tag, fail));
+            let p = if r.chance(1, 2) { gen_pointer(r, 2) } else { g.pointer(r) };
+            g.pool.push(p.clone());
+            prelude.push(OpR::RegF(p, tag, fail).words());
+        }
+        r.shuffle(&mut prelude);
+        for op in prelude {
+            next(ops, op);
+        }
+    }
     for i in 0..n {
         let op = match r.below(100) {
             0..=13 => {
@@ -1883,7 +2063,7 @@ fn gen_sequence(r: &mut Rng, k: &mut u64, ops: &mut Vec<String>, max_len: u64, t
                 } else {
                     tag += 1;
                     let fail = match r.below(20) {
-                        0..=2 => Some(*r.pick(&[4u32, 9, 4096, 0, 6, 8])),
+                        0..=2 => Some(*r.pick(&[0u32, 1, 2, 3, 4, 5, 6, 7, 8, 9, 4096])),
                         3 => Some(*r.pick(&[1_000_001u32, 1_000_002, 1_000_003])),
                         4 => Some(2_000_000),
                         5 | 6 => Some(3_000_000),
@@ -1941,7 +2121,15 @@ fn gen_sequence(r: &mut Rng, k: &mut u64, ops: &mut Vec<String>, max_len: u64, t
                 format!("req {} {} {} {} {} {} {}", pword(&path), q, r.below(3), hdr, fmt, hex(&bytes), dec)
             }
         };
-        let op = if !op.starts_with("req ") && r.chance(1, 25) {
+        let op = if wired && op.starts_with("req ") {
+            // the same request as one frame to a real Server: version, notify flag and query format become parameters
+            let w: Vec<&str> = op.split(' ').collect();
+            let q = if w[2] == "=" { w[1].to_string() } else { w[2].to_string() };
+            format!("wire {} {} {} {} {} {} {}", *r.pick(&[1u8, 1, 1, 1, 0, 2, 255]), *r.pick(&[0u8, 0, 1]), *r.pick(&[1u16, 1, 1, 1, 0, 2, 999]), q, w[5], w[6], w[7])
+        } else {
+            op
+        };
+        let op = if !op.starts_with("req ") && !op.starts_with("wire ") && r.chance(1, 25) {
             let n = if thorough { *r.pick(&[1u32, 2, 7, 8, 9, 16, 17, 64, 65, 256, 1000]) } else { *r.pick(&[2u32, 7, 8, 9, 16, 17, 64, 65, 65, 256]) };
             format!("rep {} {}", n, op)
         } else {
@@ -2014,6 +2202,13 @@ fn gen_deep(r: &mut Rng, k: &mut u64, ops: &mut Vec<String>, depth: usize) {
 }
 
 fn gen_jp(r: &mut Rng, k: &mut u64, ops: &mut Vec<String>, n: usize) {
+    // the public JSON-pointer functions on documents that really are deep: existing and missing targets
+    for d in [1usize, 16, 17, 63, 64, 65, 127, 128, 129, 255, 257, 1000] {
+        for suffix in ["/target", "/k/1", "/k/+1", "/missing", "", "/k/2", "/target/x"] {
+            ops.push(format!("jpd {} {} {}", *k, d, pword(suffix)));
+            *k += 1;
+        }
+    }
     const PIECES: &[&str] = &["-", "a", "b", "~0", "~1", "~", "~2", "~01", "~10", "~~", "0", "1", "01", "+1", "", "é", "/", "//", "x"];
     for i in 0..n {
         let d = r.below(5);
@@ -2140,6 +2335,10 @@ fn race_scenarios() -> Vec<Scenario> {
 static OP_STARTED: std::sync::atomic::AtomicU64 = std::sync::atomic::AtomicU64::new(0);
 static CURRENT: Mutex<(String, Vec<String>)> = Mutex::new((String::new(), Vec::new()));
 
+fn heartbeat() {
+    OP_STARTED.store(now_ms(), Ordering::SeqCst);
+}
+
 fn now_ms() -> u64 {
     std::time::SystemTime::now().duration_since(std::time::UNIX_EPOCH).unwrap().as_millis() as u64
 }
@@ -2153,7 +2352,8 @@ fn start_watchdog(dir: std::path::PathBuf, family: String) {
         if t0 != 0 && now_ms().saturating_sub(t0) > limit {
             let (line, mut trail) = CURRENT.lock().map(|g| g.clone()).unwrap_or_default();
             trail.push(line.clone());
-            let v = json!({"sig": "registry.call.deadlock", "detail": format!("the registry did not answer within {} s: {}", limit / 1000, line), "ops": trail});
+            let sig = if line.starts_with("conc") || line.starts_with("watch") { "registry.conc.no_progress" } else { "registry.call.deadlock" };
+            let v = json!({"sig": sig, "detail": format!("the registry did not answer within {} s: {}", limit / 1000, line.chars().take(400).collect::<String>()), "ops": trail});
             use std::io::Write as _;
             if let Ok(mut f) = std::fs::OpenOptions::new().append(true).open(dir.join("oracle.txt")) {
                 let _ = writeln!(f, "{}", v);
@@ -2161,6 +2361,54 @@ fn start_watchdog(dir: std::path::PathBuf, family: String) {
             std::process::exit(3);
         }
     });
+}
+
+/// (file, public entry points this family drives).  Anything else that is `pub fn` in these files of the tree under
+/// test is reported (`not_driven` in stats.json, stderr): a new twin must not go unnoticed.
+const DRIVEN: &[(&str, &[&str])] = &[
+    ("registry.rs", &["code", "new", "set_root", "register_value", "merge_root", "merge_at", "register_function", "register_function_arc", "read_value", "dispatch", "dispatch_with_ctx", "decode_body"]),
+    ("json_pointer.rs", &["parse", "evaluate"]),
+];
+/// server.rs has entry points of many properties; the registry mount is reached through these (all driven)
+const DRIVEN_SERVER: &[&str] = &["with_registry", "register_registry", "get", "with_middleware", "new", "listen", "serve"];
+
+fn entry_point_audit(out: &mut Out) -> Vec<String> {
+    let repo = std::env::var("VERIF_REPO").unwrap_or_else(|_| "/repo".into());
+    let mut missing = Vec::new();
+    let names = |file: &str| -> Vec<String> {
+        let text = std::fs::read_to_string(std::path::Path::new(&repo).join("src").join(file)).unwrap_or_default();
+        let text = text.split("#[cfg(test)]").next().unwrap_or("").to_string();
+        let mut v: Vec<String> = Vec::new();
+        for line in text.lines() {
+            let t = line.trim_start();
+            for pre in ["pub async fn ", "pub fn ", "pub(crate) fn "] {
+                if let Some(rest) = t.strip_prefix(pre) {
+                    let n: String = rest.chars().take_while(|c| c.is_alphanumeric() || *c == '_').collect();
+                    if !n.is_empty() && !v.contains(&n) {
+                        v.push(n);
+                    }
+                }
+            }
+        }
+        v
+    };
+    for (file, driven) in DRIVEN {
+        let found = names(file);
+        for n in &found {
+            if !driven.contains(&n.as_str()) {
+                missing.push(format!("{}::{}", file, n));
+            }
+        }
+        out.add(&format!("entry_points.{}", file), found.len() as u64);
+    }
+    // in server.rs: anything whose name speaks of a registry
+    for n in names("server.rs") {
+        if n.contains("registr") && !DRIVEN_SERVER.contains(&n.as_str()) {
+            missing.push(format!("server.rs::{}", n));
+        }
+    }
+    out.extra.insert("not_driven".into(), json!(missing));
+    missing
 }
 
 fn main() {
@@ -2171,6 +2419,13 @@ fn main() {
     }
     let mut out = Out::new(&args.out);
     start_watchdog(args.out.clone(), family.clone());
+    let missing = entry_point_audit(&mut out);
+    if !missing.is_empty() {
+        eprintln!("registry: public entry points NOT DRIVEN by this family (add them to DRIVEN or say why not): {:?}", missing);
+    }
+    if args.has("--check-entry-points") {
+        std::process::exit(if missing.is_empty() { 0 } else { 1 });
+    }
     let mut rng = Rng::new(args.seed);
     let thorough = args.thorough();
     let ops: Vec<String> = if let Some(ops) = args.replay_ops() {
@@ -2220,7 +2475,7 @@ fn main() {
         }
         ops
     };
-    let mut ctx = Ctx { sys: Sys::new(), prefixes: vec![], router: None, trail: vec![], pending_lines: vec![] };
+    let mut ctx = Ctx { sys: Sys::new(), prefixes: vec![], router: None, trail: vec![], pending_lines: vec![], wire: None };
     let mut wedged = false;
     for line in ops {
         let line = match line.split_once(" => ") {
@@ -2230,8 +2485,9 @@ fn main() {
         out.begin(&line);
         *CURRENT.lock().unwrap() = (line.clone(), ctx.trail.clone());
         let name = line.split(' ').next().unwrap_or("");
-        // the watchdog times single registry calls, not the composite lines (an enumeration, a race loop)
-        OP_STARTED.store(if name == "enum" || name == "conc" || name == "watch" { 0 } else { now_ms() }, Ordering::SeqCst);
+        // the watchdog fires when nothing has made progress for 20 s: single calls, or one iteration / node of the composite
+        // lines (race loop, watch, enumeration), which report a heartbeat each
+        heartbeat();
         match name {
             "conc" => exec_conc(&mut out, &line),
             "watch" => exec_watch(&mut out, &line),
